@@ -130,6 +130,10 @@ pub fn scenario(r: &mut Report, seed: u64) {
         ih: rng.array(),
         ts: 1_790_000_000_000_000 + rng.below(1_000_000),
     };
+    let ih2: [u8; 20] = rng.array();
+    // the last endpoint answers lookups late (300-430 ms), which keeps a lookup in flight for callers to join
+    let slow_last = rng.chance(2, 3);
+    let slow_ns = (300 + rng.below(130)) * MS;
     // which forgeries each endpoint uses (every subset / order arises over scenarios)
     let plans: Vec<Vec<usize>> = (0..n_raw).map(|_| (0..1 + rng.usize(3)).map(|_| rng.usize(12)).collect()).collect();
     let include_authentic = rng.chance(1, 2);
@@ -194,6 +198,12 @@ pub fn scenario(r: &mut Report, seed: u64) {
                     }
                 }
             }
+            "get_signed_peers" if target == Some(ih2) && use_authentic => {
+                // announcements that really are for the second info-hash (so that one response is accepted)
+                label = "signed-second/authentic".to_string();
+                let tr3 = Truth { ih: ih2, ..tr2.clone() };
+                rd.push(("peers", B::List(signed_entries(&tr3, "authentic", &mut rrng).into_iter().map(B::Bytes).collect())));
+            }
             "get_signed_peers" if target != Some(tr2.ih) => {
                 label = "signed/replayed-authentic-of-other-infohash".to_string();
                 rd.push(("peers", B::List(signed_entries(&tr2, "authentic", &mut rrng).into_iter().map(B::Bytes).collect())));
@@ -219,7 +229,8 @@ pub fn scenario(r: &mut Report, seed: u64) {
             o.log.push(format!("{} -> {}", ends2[idx].1, label));
         }
         drop(o);
-        w.raw_send(sock, &msg.encode(), d.from);
+        let late = if slow_last && idx + 1 == ends2.len() && name != "ping" && name != "find_node" { slow_ns } else { 0 };
+        w.raw_send_delayed(sock, &msg.encode(), d.from, late);
         true
     })));
     let boots: Vec<SocketAddrV4> = ends.iter().map(|e| e.1).collect();
@@ -248,6 +259,47 @@ pub fn scenario(r: &mut Report, seed: u64) {
                 r.violation("yield/immutable-hash-mismatch", "get_immutable yielded a value whose BEP44 hash is not the requested target", case.clone(), json!({"value_hex": crate::bencode::hex(v), "replies": obs.borrow().log}));
             }
         }
+    }
+    // --- callers that join the lookups while they are in flight (they are handed the responses seen so far) ---
+    {
+        use std::future::Future;
+        use std::pin::Pin;
+        let delays = [0u64, 40 * MS + rng.below(120) * MS, 150 * MS + rng.below(200) * MS];
+        let starts: Vec<u64> = delays.iter().map(|d| w.now() + d).collect();
+        let t = Id::from(tr.imm_target);
+        let got = super::net::staggered(&w, &starts, |_| { let a = a.clone(); Box::pin(async move { a.get_immutable(t).await }) as Pin<Box<dyn Future<Output = Option<Box<[u8]>>>>> }, bound);
+        for (i, g) in got.into_iter().enumerate() {
+            if let Some(Some(v)) = g {
+                r.count("immutable_yielded_to_joined_or_first_caller");
+                if immutable_target(&v) != tr.imm_target {
+                    r.violation("yield/immutable-hash-mismatch/joined-caller", "get_immutable yielded a value whose BEP44 hash is not the requested target (caller joined a running lookup)", case.clone(), json!({"caller": i, "value_hex": crate::bencode::hex(&v), "replies": obs.borrow().log}));
+                }
+            }
+        }
+        let salt_j = tr.salt.clone();
+        let starts: Vec<u64> = delays.iter().map(|d| w.now() + d).collect();
+        let got = super::net::staggered(&w, &starts, |_| { let (a, s) = (a.clone(), salt_j.clone()); Box::pin(async move { a.get_mutable(&pk, s.as_deref(), None).collect::<Vec<dht::MutableItem>>().await }) as Pin<Box<dyn Future<Output = Vec<dht::MutableItem>>>> }, bound);
+        for (i, g) in got.into_iter().enumerate() {
+            for it in g.unwrap_or_default() {
+                r.count("mutable_yielded_to_joined_or_first_caller");
+                let ok = it.key() == &pk && it.salt() == salt_j.as_deref() && verify(&pk, &mutable_signable(it.seq(), it.value(), salt_j.as_deref()), it.signature());
+                if !ok {
+                    r.violation("yield/mutable-not-authentic/joined-caller", "get_mutable yielded an item that is not authentic for the requested key and salt (caller joined a running lookup)", case.clone(), json!({"caller": i, "seq": it.seq(), "replies": obs.borrow().log}));
+                }
+            }
+        }
+        let ihj = Id::from(tr.ih);
+        let starts: Vec<u64> = delays.iter().map(|d| w.now() + d).collect();
+        let got = super::net::staggered(&w, &starts, |_| { let a = a.clone(); Box::pin(async move { a.get_signed_peers(ihj).await.collect::<Vec<_>>().await.iter().flatten().map(|sa| (sa.key().to_vec(), sa.timestamp(), sa.signature().to_vec())).collect::<Vec<(Vec<u8>, u64, Vec<u8>)>>() }) as Pin<Box<dyn Future<Output = Vec<(Vec<u8>, u64, Vec<u8>)>>>> }, bound);
+        for (i, g) in got.into_iter().enumerate() {
+            for (key, ts, sig) in g.unwrap_or_default().iter() {
+                r.count("signed_yielded_to_joined_or_first_caller");
+                if !verify(key, &announce_signable(&tr.ih, *ts), sig) {
+                    r.violation("yield/signed-peer-bad-signature/joined-caller", "get_signed_peers yielded an announcement whose signature does not verify (caller joined a running lookup)", case.clone(), json!({"caller": i, "replies": obs.borrow().log}));
+                }
+            }
+        }
+        r.count("joined_caller_rounds");
     }
     // --- mutable (stream, with and without more_recent_than) and most_recent ---
     let salt = tr.salt.clone();
@@ -285,7 +337,6 @@ pub fn scenario(r: &mut Report, seed: u64) {
     }
     // --- the same node looks up ANOTHER info-hash: responders replay the announcements that were
     // authentic (and already accepted) for the first one
-    let ih2: [u8; 20] = rng.array();
     let a5 = a.clone();
     let lists2 = w.block_on(async move { a5.get_signed_peers(Id::from(ih2)).await.collect::<Vec<_>>().await }, bound).unwrap_or_default();
     for s in lists2.iter().flatten() {
